@@ -206,6 +206,36 @@ class FindResult:
     def __repr__(self):
         return "<%s.find(%#x, %r)>" % (self.buf.name, self.needle, B.norm(self.start))
 
+    def number(self):
+        """The result as a number, related to the generic element: -1 (then the element is no occurrence at or after the
+        start), the element's own index (then it holds the needle), an earlier index (nothing is learnt about the
+        element) or a later one (then the element is no occurrence at or after the start: the result is the first)."""
+        if getattr(self, "_n", None) is not None:
+            return self._n
+        buf = self.buf
+        if not isinstance(buf, AbsBuf):
+            raise AnalysisError("engine B: find() result of %r used as a number" % (buf,))
+        r = B.fresh("%s.find" % buf.name, -1, None)
+        B.assume_ge0(Aff.of(buf.L) - 1 - r)
+        occurrence = B.decide_eq0(Aff.of(buf.val) - self.needle, "generic element holds the searched byte") \
+            and B.decide_ge0(Aff.of(buf.idx) - self.start, "generic element at or after the search start")
+        if B.decide_eq0(r + 1, "find() found nothing"):
+            if occurrence:
+                raise B.DeadPath()
+        else:
+            B.assume_ge0(r - self.start)
+            if B.decide_eq0(r - buf.idx, "find() found the generic element"):
+                if not occurrence:
+                    raise B.DeadPath()
+            elif B.decide_ge0(r - buf.idx - 1, "find() found a later element"):
+                if occurrence:
+                    raise B.DeadPath()
+        self._n = r
+        return r
+
+    def compare(self, fr, op, other, node):
+        return fr.compare(op, self.number(), other, node)
+
 
 def find_loop(fr, st, ivar):
     """The loop visits the occurrences of the needle in ascending order for as long as its test holds.  For the generic
